@@ -118,6 +118,14 @@ class QuadProblem(Problem):
                                 (np.concatenate([S.row, S.row]), np.concatenate([S.col, S.col]))), shape=M.shape)
             if self.fmt == "coo":
                 return S
+        if self.fmt == "csc_dup":
+            # a valid but non-canonical CSC matrix: every stored entry split into two halves in the same column
+            C_ = sps.csc_matrix(sps.coo_matrix(M))
+            C_.sort_indices()
+            data = np.repeat(C_.data / 2.0, 2)
+            indices = np.repeat(C_.indices, 2)
+            indptr = C_.indptr * 2
+            return sps.csc_matrix((data, indices, indptr), shape=M.shape)
         if self.fmt == "alt":        # a different storage format on every call (same matrix, other entry order)
             cnt = getattr(self, "_alt", None) or {}
             cnt[which] = cnt.get(which, 0) + 1          # each callback cycles through the formats on its own
